@@ -995,14 +995,14 @@ def run(ctx):
     from vlib import shimlib
     quick = ctx.tier == 'quick'
     rng = ctx.subrng('values', ctx.shard)
-    extra = rand_strings(rng, 25 if quick else 300)
+    extra = rand_strings(rng, 120 if quick else 300)
     values = list(dict.fromkeys(ADV + extra))
     data = list(dict.fromkeys(ADV + extra[:10]))
     ctx.extra['value_domain'] = {'fixed_hostile_strings': len(ADV), 'random_strings': len(extra), 'identifiers': len(WEIRD)}
-    p1_run(ctx, shimlib, core, 12 if quick else 150)
-    p2_run(ctx, values if not quick else list(dict.fromkeys(ADV + extra[:8])), quick)
+    p1_run(ctx, shimlib, core, 40 if quick else 150)
+    p2_run(ctx, values, quick)
     p3a_run(ctx, shimlib, values)
-    p3b_run(ctx, shimlib, values if not quick else list(dict.fromkeys(ADV + extra[:8])), data if not quick else ADV)
+    p3b_run(ctx, shimlib, values, data)
     names = list(WEIRD)
     if not quick:
         names += [''.join(rng.choice(['"', '`', "'", '.', ' ', 'a', 'B', ';', '-', '\\', ':', '?']) for _ in range(rng.randint(2, 6))) + 'z'
